@@ -12,13 +12,14 @@ idempotent, no-op on negative parity) and TouchInvisible (filling the array cach
 outcome of any later flip / ensure).  Every initial state emits the predicted header values, signs, row orders of both
 views and per-pixel world tables after flip / flip.flip / ensure / ensure.ensure.
 
-Binding (spec -> code): every emitted case is built as a real astropy WCS (CD or PC+CDELT form, scaled by 1e-3 deg;
-three CRVALs incl. RA wrap and near the pole) and a real toasty object: Image.from_array (F32, RGB), ImageDescription,
+Binding (spec -> code): every emitted case is built as a real astropy WCS (CD or PC+CDELT form; the integer matrix given a
+pixel scale of 1e-2 .. 1e-9 deg per unit - arcminutes to micro-arcseconds; seven native frames: CRVAL incl. RA wrap, near and AT
+both poles, default and explicitly non-default LONPOLE / LATPOLE) and a real toasty object: Image.from_array (F32, RGB), ImageDescription,
 or a PIL-backed Image (Image.from_pil of an RGB / RGBA bitmap, ImageLoader.load_pil of an 'L' bitmap, ImageLoader.load_path
 of a png file; WCS attached as toasty's cli does) after one of the pre-call histories nothing / asarray() / dtype /
 aspil() / shape.  The real flip_parity, flip_parity again, ensure_negative_parity twice are run and compared with the
 prediction: parity signs, row order read through asarray() AND through aspil(), wcs_pix2world before at (x, y) against
-after at (x, h-1-y) for every pixel (1e-9 deg on the sphere), the linear stage (imgcrd) against TLC's world table,
+after at (x, h-1-y) for every pixel (1e-4 pixel on the sphere, at most 1e-9 deg), the linear stage (imgcrd) against TLC's world table,
 header CD / CRPIX (drift only).
 
 Call histories: in a second pair of TLC runs the spec records the calls made (MaxHist = 4, thorough 5): every sequence of
@@ -39,9 +40,12 @@ import os
 
 from lib import repo, tla
 
-SCALE = 1e-3
-CRVALS = [(10.0, 20.0), (359.9995, -45.0), (120.0, 89.99)]
-TOL_DEG = 1e-9
+# "all linear celestial WCS": the integer matrices of the spec are given a pixel scale from arcminutes down to micro-arcseconds
+# (deg per unit), and the native frame is oriented in every way a header can: reference point anywhere incl. RA wrap, at and
+# near the poles, default and explicitly non-default LONPOLE / LATPOLE.  (CRVAL, LONPOLE, LATPOLE): None = the default.
+SCALES = [1e-3, 1e-2, 1e-5, 1e-7, 1e-9]
+FRAMES = [((10.0, 20.0), None, None), ((359.9995, -45.0), None, None), ((120.0, 89.99), None, None),
+          ((40.0, 30.0), 150.0, None), ((200.0, 90.0), 180.0, None), ((75.0, -90.0), 0.0, None), ((300.0, 60.0), 179.0, 45.0)]
 # PIL-backed objects: how the bitmap got into the Image, and what the client called before the parity operation
 BACKINGS = ["from_pil-RGB", "from_pil-RGBA", "loader-L", "loader-png"]
 TOUCHES = ["nothing", "asarray", "dtype", "aspil", "shape"]
@@ -171,7 +175,10 @@ def replay_case(args):
     o = rec["orig"]
     kind, w, h = o["kind"], o["w"], o["h"]
     cdelt, pc, p = o["cdelt"], o["pc"], o["p"]
-    crval = CRVALS[idx % len(CRVALS)]
+    crval, lonpole, latpole = FRAMES[idx % len(FRAMES)]
+    SCALE = SCALES[(idx // len(FRAMES)) % len(SCALES)]
+    # sky positions are compared to 1e-4 pixel, at most 1e-9 deg, at least the float noise of a coordinate near 360 deg
+    TOL_DEG = max(2e-12, min(1e-9, 1e-4 * SCALE))
     has_data = kind != "desc"
     # what backs the pixel data, and what the client did with the object before the parity call
     if kind == "image":
@@ -185,7 +192,8 @@ def replay_case(args):
     cls = "ImageDescription" if kind == "desc" else "Image"
     case = {"kind": cls, "width": w, "height": h, "CDELT": [c * SCALE for c in cdelt] if tuple(cdelt) != (1, 1) else [1, 1],
             "PC": pc if tuple(cdelt) != (1, 1) else None, "CD": [v * SCALE for v in rec["start"]["cd"]],
-            "CRPIX": [p[0] / 2.0, p[1] / 2.0], "CRVAL": list(crval), "data": backing, "before_the_call": touch,
+            "CRPIX": [p[0] / 2.0, p[1] / 2.0], "CRVAL": list(crval), "LONPOLE": lonpole, "LATPOLE": latpole,
+            "deg_per_unit": SCALE, "data": backing, "before_the_call": touch,
             "wcs_records_grid": None if not o.get("nax") else [w + o["nax"] - h, o["nax"]],
             "second_image_on_the_buffer": o.get("peer", "none")}
     res = []
@@ -220,6 +228,10 @@ def replay_case(args):
         wcs = WCS(naxis=2)
         wcs.wcs.ctype = ["RA---TAN", "DEC--TAN"]
         wcs.wcs.crval = list(crval)
+        if lonpole is not None:
+            wcs.wcs.lonpole = lonpole
+        if latpole is not None:
+            wcs.wcs.latpole = latpole
         wcs.wcs.crpix = [p[0] / 2.0, p[1] / 2.0]
         if tuple(cdelt) == (1, 1):
             wcs.wcs.cd = np.array(pc, dtype=float).reshape(2, 2) * SCALE
@@ -287,7 +299,7 @@ def replay_case(args):
 
     def world_ok(ob, table):
         exp = np.array(table, dtype=float).reshape(h * w, 2) * (SCALE / 2.0)
-        return np.allclose(ob["img"], exp, rtol=1e-9, atol=1e-13)
+        return np.allclose(ob["img"], exp, rtol=1e-9, atol=1e-10 * SCALE)
 
     def rows_ok(ob, rows, view="ident"):
         if ob[view] is None:
@@ -317,7 +329,7 @@ def replay_case(args):
         cd, crpix = ob["hdr"]
         exp_cd = [v * SCALE for v in snap["cd"]]
         exp_p = [snap["p"][0] / 2.0, snap["p"][1] / 2.0]
-        if not (np.allclose(cd, exp_cd, rtol=1e-9, atol=1e-15) and np.allclose(crpix, exp_p, rtol=1e-12, atol=1e-12)):
+        if not (np.allclose(cd, exp_cd, rtol=1e-9, atol=1e-12 * SCALE) and np.allclose(crpix, exp_p, rtol=1e-12, atol=1e-12)):
             bad("D", op, "header", "header after %s has CD=%s CRPIX=%s, the specified reflection gives CD=%s CRPIX=%s"
                 % (op, cd, crpix, exp_cd, exp_p))
 
@@ -432,7 +444,7 @@ def replay_case(args):
             if not sep <= TOL_DEG:
                 return "sky", "its pixels moved on the sky by up to %.3g deg" % sep
             expw = np.array(table, dtype=float).reshape(hh * w, 2) * (SCALE / 2.0)
-            if not np.allclose(ob["img"], expw, rtol=1e-9, atol=1e-13):
+            if not np.allclose(ob["img"], expw, rtol=1e-9, atol=1e-10 * SCALE):
                 return "sky", "its linear WCS stage differs from the specified world table"
             return None
 
@@ -667,7 +679,7 @@ def run(ctx):
         ctx.distinct((o["kind"], o["w"], o["h"], tuple(o["cdelt"]), tuple(o["pc"]), tuple(o["p"]), o.get("nax", 0), o.get("peer", "none"), tuple(rec.get("hist", ()))))
         for sev, key, msg, case in res:
             if sev == "V":
-                ctx.violation("C16:" + key, "%s [%s %dx%d, CD=%s, CRPIX=%s, CRVAL=%s]" % (msg, case["kind"], case["height"], case["width"], case["CD"], case["CRPIX"], case["CRVAL"]),
+                ctx.violation("C16:" + key, "%s [%s %dx%d, CD=%s, CRPIX=%s, CRVAL=%s, LONPOLE=%s, LATPOLE=%s]" % (msg, case["kind"], case["height"], case["width"], case["CD"], case["CRPIX"], case["CRVAL"], case["LONPOLE"], case["LATPOLE"]),
                               {"case": case})
             elif sev == "D":
                 ctx.drift("%s %s (case %s)" % (key, msg, case))
@@ -685,4 +697,5 @@ def run(ctx):
     ctx.assume("linear celestial WCS: RA---TAN / DEC--TAN with a non-singular CD (or PC+CDELT) matrix, no distortion terms; a singular matrix "
                "has no parity and is outside the property's quantifier")
     ctx.assume("astropy's projection (wcs_pix2world, p2s) is trusted; equal intermediate world coordinates imply equal sky positions")
-    ctx.assume("matrix entries are integers times 1e-3 deg (rotations are the exact Pythagorean ones); sky positions compared to 1e-9 deg")
+    ctx.assume("matrix entries are integers times a pixel scale of 1e-2, 1e-3, 1e-5, 1e-7 or 1e-9 deg (rotations are the exact Pythagorean ones); "
+               "sky positions compared to 1e-4 pixel (at most 1e-9 deg, at least 2e-12 deg = float noise of a coordinate near 360 deg)")
